@@ -433,6 +433,11 @@ def plan_C07(w):
     run_mc(w, [("hg1", "MC_hg1.cfg", 4, 300), ("hg2q", "MC_hg2q.cfg", 8, 600)])
     kinds = [("admA", dict(traces=4, n=0, steps=170, arg="all")), ("admB", dict(traces=3, n=4, steps=200))] if q else \
             [("adm%d" % i, dict(traces=6, n=0, steps=300, arg="all" if i % 2 == 0 else "")) for i in range(6)]
+    # a target whose in-memory caches are smaller than the history, a creator that stays
+    # silent until its last event has left the target's event cache, then tampered
+    # indexes on top of it
+    kinds += [("admQ", dict(traces=3 if q else 9, n=0, steps=500 if q else 800, sched="quiet", cache=12)),
+              ("admR", dict(traces=2 if q else 6, n=4, steps=600 if q else 900, sched="quiet", cache=30))]
     traces, sums = drive_all(w, gossip_specs(w, kinds), mode="admit")
     g = [("gsp", dict(traces=3 if q else 10, n=0, steps=110 if q else 220, sched="mix"))]
     t2, s2 = drive_all(w, gossip_specs(w, g))
